@@ -127,18 +127,23 @@ struct Seed {
     entries: Vec<Entry>,
 }
 
+/// text seeds are written by the REFERENCE writer (a seed must not depend on mila's serializer)
 fn text_seed(fmt: TextArchiveFormat, e: Endian) -> Vec<u8> {
-    let mut t = TextArchive::new(fmt, e);
-    t.set_title("title".into());
-    t.set_message("MID_A", "hello\\nworld");
-    t.set_message("MID_B", "");
-    t.set_message("MID_キー", "日本");
-    if let TextArchiveFormat::Unicode = fmt {
+    let rfmt = match fmt {
+        TextArchiveFormat::ShiftJIS => vcore::ref_text::Fmt::ShiftJis,
+        TextArchiveFormat::Unicode => vcore::ref_text::Fmt::Unicode,
+    };
+    let re = match e {
+        Endian::Big => End::Big,
+        Endian::Little => End::Little,
+    };
+    let mut entries: Vec<(String, String)> = vec![("MID_A".into(), "hello\nworld".into()), ("MID_B".into(), "".into()), ("MID_キー".into(), "日本".into())];
+    if rfmt == vcore::ref_text::Fmt::Unicode {
         // supplementary-plane characters (surrogate pairs with lead units from D83D to DBFF)
-        t.set_message("MID_ASTRAL", "\u{20BB7}\u{20BB7}\u{20BB7}\u{1F600}\u{10FFFF}x");
-        t.set_message("MID_ASTRAL2", "\u{2A6D6}\u{10000}");
+        entries.push(("MID_ASTRAL".into(), "\u{20BB7}\u{20BB7}\u{20BB7}\u{1F600}\u{10FFFF}x".into()));
+        entries.push(("MID_ASTRAL2".into(), "\u{2A6D6}\u{10000}".into()));
     }
-    t.serialize().expect("text seed")
+    vcore::ref_text::write_image(rfmt, re, "title", &entries).expect("reference text seed")
 }
 
 fn aset_seed() -> Vec<u8> {
@@ -151,7 +156,7 @@ fn aset_seed() -> Vec<u8> {
     s1[256] = Some("z".into());
     a.sets.push(s1);
     a.sets.push(vec![None; 257]);
-    a.serialize().expect("aset seed")
+    util::catch(|| a.serialize().unwrap_or_default()).unwrap_or_default()
 }
 
 /// every clip name present, one set with all 256 slots named, one with none, one sparse —
@@ -184,7 +189,7 @@ fn asset_seed() -> Vec<u8> {
     s2.name = Some("short".into());
     s2.conditional1 = Some("c1".into());
     b.specs.push(s2);
-    b.serialize().expect("asset seed")
+    util::catch(|| b.serialize().unwrap_or_default()).unwrap_or_default()
 }
 
 fn seeds() -> &'static Vec<Seed> {
@@ -193,7 +198,13 @@ fn seeds() -> &'static Vec<Seed> {
         let bin_all: Vec<Entry> = ENTRIES.iter().cloned().filter(|e| *e != Entry::Pack).collect();
         let mut v = Vec::new();
         let fixture = |name: &str| std::fs::read(format!("/repo/resources/test/{}", name)).ok();
-        let mut add = |name: &str, bytes: Vec<u8>, entries: Vec<Entry>| v.push(Seed { name: name.to_string(), bytes, entries });
+        // a seed produced by one of mila's own serializers is skipped when that serializer fails or
+        // panics (the seed generators must not take the harness down with the subject)
+        let mut add = |name: &str, bytes: Vec<u8>, entries: Vec<Entry>| {
+            if !bytes.is_empty() {
+                v.push(Seed { name: name.to_string(), bytes, entries })
+            }
+        };
         for (name, natural) in [
             ("Allocate_NoDestinationShift.bin", bin_all.clone()),
             ("Allocate_NoLabelShift.bin", bin_all.clone()),
@@ -247,12 +258,12 @@ fn seeds() -> &'static Vec<Seed> {
         add("gen:text-uni-be", text_seed(TextArchiveFormat::Unicode, Endian::Big), vec![Entry::TextUniBE, Entry::BinBE]);
         add("gen:aset", aset_seed(), vec![Entry::Aset, Entry::BinLE]);
         add("gen:aset-full", aset_full_seed(), vec![Entry::Aset]);
-        add("gen:aset-empty", ASetFile::new(Some("".into())).serialize().expect("aset empty"), vec![Entry::Aset, Entry::Asset]);
-        add("gen:asset-empty", AssetBinary::new().serialize().expect("asset empty"), vec![Entry::Asset, Entry::Aset]);
+        add("gen:aset-empty", util::catch(|| ASetFile::new(Some("".into())).serialize().unwrap_or_default()).unwrap_or_default(), vec![Entry::Aset, Entry::Asset]);
+        add("gen:asset-empty", util::catch(|| AssetBinary::new().serialize().unwrap_or_default()).unwrap_or_default(), vec![Entry::Asset, Entry::Aset]);
         let dup: Vec<(String, Vec<u8>)> = vec![("same".into(), vec![1, 2, 3]), ("same".into(), vec![4]), ("other".into(), vec![])];
         add("gen:pack-duplicate-names", ref_pack::build_pack(&dup, &pl), vec![Entry::Pack]);
-        add("gen:text-empty-sjis", TextArchive::new(TextArchiveFormat::ShiftJIS, Endian::Big).serialize().unwrap_or_default(), vec![Entry::TextSjisBE, Entry::BinBE]);
-        add("gen:text-empty-uni", TextArchive::new(TextArchiveFormat::Unicode, Endian::Little).serialize().unwrap_or_default(), vec![Entry::TextUniLE, Entry::BinLE]);
+        add("gen:text-empty-sjis", util::catch(|| TextArchive::new(TextArchiveFormat::ShiftJIS, Endian::Big).serialize().unwrap_or_default()).unwrap_or_default(), vec![Entry::TextSjisBE, Entry::BinBE]);
+        add("gen:text-empty-uni", util::catch(|| TextArchive::new(TextArchiveFormat::Unicode, Endian::Little).serialize().unwrap_or_default()).unwrap_or_default(), vec![Entry::TextUniLE, Entry::BinLE]);
         add("gen:asset", asset_seed(), vec![Entry::Asset, Entry::BinLE, Entry::Aset, Entry::TextSjisLE]);
         v
     })
@@ -579,7 +590,13 @@ fn families(tier: Tier) -> Vec<Family> {
 fn seed_self_check() -> Option<String> {
     let b = aset_full_seed();
     match util::catch(|| BinArchive::from_bytes(&b, Endian::Little).map_err(|e| e.to_string()).and_then(|a| ASetFile::from_archive(&a).map_err(|e| e.to_string())).map(|s| (s.sets.len(), s.sets.first().map(|x| x.iter().filter(|y| y.is_some()).count())))) {
-        Ok(Ok((3, Some(257)))) => None,
+        Ok(Ok((3, Some(257)))) => {
+            let t = text_seed(TextArchiveFormat::Unicode, Endian::Little);
+            match util::catch(|| TextArchive::from_bytes(&t, TextArchiveFormat::Unicode, Endian::Little).map(|a| a.get_entries().len()).map_err(|e| e.to_string())) {
+                Ok(Ok(5)) => None,
+                other => Some(format!("the reference-built Unicode text seed is not read as 5 entries: {:?}", other.map_err(|p| p.message))),
+            }
+        }
         other => Some(format!("the reference-built full aset seed is not read as 3 sets with a full first set: {:?}", other.map_err(|p| p.message))),
     }
 }
